@@ -6,8 +6,11 @@ MANIFEST = dict(
     text="Coq theorems (Props/C10.v): for every reachable channel and every request of the channel alphabet (direct and handler "
          "composites, any u64 numbers, both build profiles) a refusal leaves the memory image and the persisted image of the "
          "enforcement state unchanged (C10_channel_refused_changes_nothing, by case analysis over all request paths incl. the proof "
-         "that the half-way failure points are unreachable); the same for node-level requests, the payment ledger, the velocity "
-         "control (modulo clock rotation) and, re-exported from C13, the chain tracker.  On every run the real signer is driven "
+         "that the half-way failure points are unreachable); the same for node-level requests (incl. the table of issued invoices: "
+         "C10_issued_invoice_is_never_replaced), the payment ledger, the velocity "
+         "control (modulo clock rotation) and, re-exported from C13, the chain tracker; over joint histories of the whole node (Props/Joint.v, "
+         "J_C10_refused_changes_nothing) a commitment request refused by the channel's state machine OR by the node-wide payment check "
+         "leaves the ledger and the slot of every channel unchanged.  On every run the real signer is driven "
          "through three domains with a snapshot monitor around EVERY request: on an error reply the fingerprint of the running "
          "signer and the complete store dump (keys, versions, values) must be identical to the ones before the request.",
     design="§4 C10",
@@ -24,3 +27,6 @@ def run(res):
                     "C10_node_refused_changes_nothing", "C10_issued_invoice_is_never_replaced", "C10_payments_refused_changes_nothing",
                     "C10_velocity_refused_records_nothing", "C10_tracker_refused_changes_nothing", "C10_nonvacuous"],
                    "C10", "on an error reply the fingerprint of the running signer and the full store dump equal the ones taken before the request")
+    # the same over joint histories of the whole node (Model/Joint.v): the payment verdict and the enforcement verdict of
+    # a commitment request are computed, and a refusal for either reason leaves the ledger and every channel alone
+    lib.extra_props_stage(res, "Joint.v", ["J_C10_refused_changes_nothing"])
